@@ -1456,6 +1456,20 @@ func (m *Machine) doCall(st *State, fr *Frame, call ssa.CallInstruction) bool {
 			}
 		}
 	}
+	// a method expression ((*T).m used as a func): the thunk's single call is the real callee, with the same arguments
+	if callee != nil && strings.HasPrefix(callee.Synthetic, "thunk for") {
+		var target *ssa.Function
+		for _, b := range callee.Blocks {
+			for _, in := range b.Instrs {
+				if c, ok := in.(*ssa.Call); ok && target == nil {
+					target = c.Call.StaticCallee()
+				}
+			}
+		}
+		if target != nil && len(target.Params) == len(args) {
+			callee = target
+		}
+	}
 	val, isVal := call.(ssa.Value)
 	bind := func(s *State, res AV) {
 		if isVal {
